@@ -249,7 +249,7 @@ def linear_nf(e, f, self_ty, depth=0):
 def run(chk):
     f = F.load()
     g, ip = engine(f)
-    chk.rules = ["R-COL", "R-ROW-LO", "R-ROW-FIXED", "R-DIM", "R-CLAMP-SHAPE", "R-ROW-CLAMP", "R-FIXED-GRID"]
+    chk.rules = ["R-COL", "R-ROW-LO", "R-ROW-FIXED", "R-DIM", "R-ORIGIN", "R-CLAMP-SHAPE", "R-FV-SHAPE", "R-GROW", "R-ROW-CLAMP", "R-FIXED-GRID"]
     chk.assumptions = list(P.ASSUMPTIONS) + [
         "the property's own precondition: the stream does not request a text-area resize between two checks of the invariant "
         "(the invariant is assumed at entry of print_char and proven at every return)",
@@ -425,6 +425,39 @@ def run(chk):
                 chk.finding("limit_caret_pos|clamp|%s|%s" % (tgt, show(args[2])[:60]), rule="R-CLAMP-SHAPE", where="%s:%s" % (lb.file, t["line"]), fn="limit_caret_pos",
                             what="the %s clamp is not %s: clamp(%s, %s, %s)" % (tgt, want, sx, show(args[1])[:50], show(args[2])[:70]))
         chk.sample("limit_caret_pos clamps: " + "; ".join("%s in [%s, %s]" % (tg, show(a[1])[:30], show(a[2])[:50]) for _, _, a, tg in clamps))
+    # ------------------------------------------------------------------ R-ORIGIN: origin mode (DECOM) cannot be switched on
+    # The WithinMargins arms of limit_caret_pos / upper_left_position derive rows from the margins, which no setter validates.
+    # They are dead as long as nothing stores OriginMode::WithinMargins: checked here, crate wide, on every run.
+    nstore = 0
+    for b in f.bodies.values():
+        if b.kind not in ("fn", "method", "closure"):
+            continue
+        ebo = None
+        for bi, k, s_ in b.stmts():
+            if s_["k"] != "assign":
+                continue
+            proj = s_["p"].get("p", [])
+            direct = bool(proj) and proj[-1] != "*" and proj[-1][0] == "f" and proj[-1][2] == "origin_mode"
+            agg = s_["rv"]["k"] == "agg" and (s_["rv"].get("adt") or "").endswith("terminal_state::TerminalState")
+            if not (direct or agg):
+                continue
+            ebo = ebo or ExprBuilder(b)
+            if direct:
+                val = show(ebo.rvalue(s_["rv"]))
+            else:
+                adt = f.adts.get("terminal_state::TerminalState")
+                names = [x[0] for x in adt["variants"][0]["fields"]] if adt else []
+                ops = s_["rv"].get("ops", [])
+                val = show(ebo.operand(ops[names.index("origin_mode")])) if "origin_mode" in names and names.index("origin_mode") < len(ops) else "?"
+            nstore += 1
+            # a copy of an existing origin mode (derived Clone, struct update) introduces no new value
+            ok = ("WithinMargins" not in val) and ("UpperLeftCorner" in val or val.endswith(".origin_mode") or val.endswith(".origin_mode)"))
+            chk.obligation(ok)
+            if not ok:
+                chk.finding("%s|origin-mode-store|%s" % (b.short(), val[:40]), rule="R-ORIGIN", where="%s:%s" % (b.file, s_["line"]), fn=b.short(),
+                            what="origin mode can be set to `%s`: the WithinMargins arms of limit_caret_pos / upper_left_position become live, and they place "
+                                 "the cursor by margins that no setter validates (CSI 0;0 r stores -1, CSI 1;9999 r a row below the screen)" % val[:60])
+    chk.floor("R-ORIGIN", "stores to TerminalState.origin_mode (field stores and struct literals)", nstore, 2)
     # ------------------------------------------------------------------ R-FV-SHAPE: first visible row = max(0, buffer height - terminal height)
     fvb = f.bodies.get("buffers::Buffer::get_first_visible_line")
     if chk.anchor(fvb is not None, "R-FV-SHAPE", "anchor missing: Buffer::get_first_visible_line"):
